@@ -211,9 +211,10 @@ Fixpoint run {A} (fuel : nat) (c : chip) (p : prog A) (tr : list tev) : chip * l
       let c0' := apply_on_irq c0 in
       let '(flt, c1) := tick c0' in
       if flt then run f c1 (h EBusy) (TIvFault IvIrq :: tr) else run f c1 (k []) (TIv IvIrq :: tr)
-    | Do (Iv call) k h =>
+    | Do (Iv IvBusy) k h =>
       let '(flt, c1) := tick c in
-      if flt then run f c1 (h EBusy) (TIvFault call :: tr) else run f c1 (k []) (TIv call :: tr)
+      if flt then run f c1 (h EBusy) (TIvFault IvBusy :: tr) else run f c1 (k []) (TIv IvBusy :: tr)
+    | Do (Iv call) k _ => run f c (k []) (TIv call :: tr)      (* reset / RF switch: plain outputs, outside the fault model *)
     | Do (DelayNs ns) k _ => run f c (k []) (TDelay ns :: tr)
     | Do (St tag v) k _ => run f (with_drv c (set_nth_list (c_drv c) tag v)) (k []) tr
     | Do (Ld tag) k _ => run f c (k (nth tag (c_drv c) [])) tr
